@@ -5,6 +5,44 @@ import langgen as lg
 from vp import to_sexp
 
 
+EXPECT = {}     # case line -> nesting depth of the (well-typed) filter it carries
+
+
+def ast_depth(e):
+    """nesting of a langgen AST: parentheses, not, any/all, call argument lists"""
+    k = e[0]
+    if k == "comb":
+        return max(ast_depth(x) for x in e[2:])
+    if k == "cmp":
+        return iexpr_depth(e[1])
+    if k in ("paren", "not"):
+        return 1 + ast_depth(e[1])
+    if k == "qi":
+        return 1 + iexpr_depth(e[2])
+    if k == "ql":
+        return 1 + ast_depth(e[2])
+    raise ValueError(e)
+
+
+def iexpr_depth(e):
+    if e[0] == "field":
+        return 0
+    ds = [0]
+    for a in e[2]:
+        if a[0] == "ai":
+            ds.append(iexpr_depth(a[1]))
+        elif a[0] == "lit":
+            ds.append(0)
+        else:
+            ds.append(ast_depth(a[1]))
+    return 1 + max(ds)
+
+
+def expect(line, depth):
+    EXPECT[line] = depth
+    return line
+
+
 def parse_case(sch, text, depth=128, star=None, kind="parse"):
     return to_sexp((kind, sch.sexp(), ("settings", depth, star), text.encode() if isinstance(text, str) else text))
 
@@ -57,7 +95,7 @@ def gen(rng, tier):
                 continue
             for d in range(0, 9):
                 if abs(d - n) <= 2 or d in (0, 8):
-                    out.append(parse_case(sch, t, d))
+                    out.append(expect(parse_case(sch, t, d), n))
     # large limits around d-1, d, d+1
     for d in (16, 64, 128, 129, 200):
         for k in (d - 1, d, d + 1):
@@ -71,23 +109,42 @@ def gen(rng, tier):
                     shape.append(c)
                 t = shapes_text(shape)
                 if t:
-                    out.append(parse_case(sch, t, d))
+                    out.append(expect(parse_case(sch, t, d), k))
     # deepest path in a function argument / quantifier argument / right operand of a chain
     for d in range(0, 7):
         for k in range(0, 7):
             deep = nest("p" * k, "tt")
-            out.append(parse_case(sch, "tt and num == 1 or " + deep, d))
-            out.append(parse_case(sch, "any(" + nest("p" * k, "bools") + " and bools)", d))
-            out.append(parse_case(sch, "join2(str, lower(" + nest("", "str") + ")) == \"a\" and echo_b(" + deep + ")", d))
-            out.append(parse_case(sch, "len(lower(echo(" + "echo(" * k + "str" + ")" * k + "))) == 1", d))
-            out.append(parse_case(sch, "len(" + "echo(" * k + "str" + ")" * k + ")", d, kind="parse-value"))
+            out.append(expect(parse_case(sch, "tt and num == 1 or " + deep, d), k))
+            out.append(expect(parse_case(sch, "any(" + nest("p" * k, "bools") + " and bools)", d), 1 + k))
+            out.append(expect(parse_case(sch, "join2(str, lower(" + nest("", "str") + ")) == \"a\" and echo_b(" + deep + ")", d),
+                              max(2, 1 + k)))
+            out.append(expect(parse_case(sch, "len(lower(echo(" + "echo(" * k + "str" + ")" * k + "))) == 1", d), 3 + k))
+            out.append(expect(parse_case(sch, "len(" + "echo(" * k + "str" + ")" * k + ")", d, kind="parse-value"), 1 + k))
     # random well-typed filters under small limits
     g = lg.Gen(rng, sch, features=("index", "each", "quant", "oneof", "call", "vec", "mapbool"), max_depth=4)
     for _ in range(400 if tier == "quick" else 8000):
         e = g.gen_filter()
         text = lg.render_lexpr(sch, e, lg.Layout(rng))
-        out.append(parse_case(sch, text, rng.choice([0, 1, 2, 3, 4, 5, 6, 8, 128])))
+        out.append(expect(parse_case(sch, text, rng.choice([0, 1, 2, 3, 4, 5, 6, 8, 128])), ast_depth(e)))
     return out
+
+
+def property_oracle(line, impl_out):
+    """C13 at the level of the property text: a well-typed filter of nesting n is accepted exactly when n <= d, and is
+       otherwise rejected with an error (any error kind)"""
+    import re
+    if line not in EXPECT:
+        return None
+    m = re.search(r"\(settings (\d+) ", line)
+    if not m:
+        return None
+    d, n = int(m.group(1)), EXPECT[line]
+    o = impl_out.strip()
+    if o.startswith("(ok"):
+        return "ok" if n <= d else "violates: accepted nesting %d under limit %d" % (n, d)
+    if o.startswith("(err"):
+        return "ok" if n > d else "violates: rejected nesting %d under limit %d: %s" % (n, d, o[:60])
+    return "violates: " + o[:80]
 
 
 def nontrivial(line):
@@ -104,6 +161,7 @@ PROP = {
     "proof_files": ["theories/Proofs/ParserClosed.v", "theories/Proofs/ParserProofs.v", "theories/Proofs/LexFacts.v", "theories/Proofs/TypingProofs.v"],
     "gen": gen,
     "compare_spec": False,
+    "property_oracle": property_oracle,
     "nontrivial": nontrivial,
     "distribution": distribution,
     "exhaustive": True,
